@@ -92,7 +92,7 @@ func main() {
 		for _, r := range rs {
 			ok := r.Status == "unsat"
 			if r.Obl.Kind == "cover" {
-				ok = r.Status == "sat"
+				ok = r.Status == "sat" || eng.deadByContract(r)
 			}
 			mark := "ok  "
 			if !ok {
